@@ -561,6 +561,9 @@ func runC15(c *Ctx) error {
 	for i, n := 0, c.N(600, 20000); i < n; i++ {
 		key := rng.Bytes(32)
 		w, class := genWirePacket(rng)
+		if i%8 == 7 {
+			w, class = genBigWirePacket(rng), ""
+		}
 		// the sender (independent implementation) computes the code over its own octets
 		mac := refMac(key, w)
 		tx := append([]byte(nil), w...)
@@ -604,4 +607,41 @@ func runC15(c *Ctx) error {
 		}
 	}
 	return nil
+}
+
+// genBigWirePacket: a well-formed, canonical EAP-AKA' packet of several KiB (the EAP length field allows 65535 octets)
+// whose attribute boundaries are placed AT and AROUND the sizes readers and buffers commonly have (512, 1024, 4096,
+// 8192 octets of method data): AT_RAND, AT_AUTN, AT_MAC, AT_KDF first, then skippable attributes the library does not
+// interpret (ascending types 129..), sized so that one of them ends exactly at the chosen offset, then a few more
+func genBigWirePacket(r *Rng) []byte {
+	target := r.Pick([]int{512, 1024, 4096, 4096, 4096, 8192}) + r.Pick([]int{0, 0, 0, -4, 4, -8, 8})
+	body := []byte{50, 1, 0, 0}
+	add := func(ty int, val []byte) { // val: everything after type and length, a multiple of 4 minus 2 octets
+		body = append(body, byte(ty), byte((2+len(val))/4))
+		body = append(body, val...)
+	}
+	add(1, append([]byte{0, 0}, r.Bytes(16)...))
+	add(2, append([]byte{0, 0}, r.Bytes(16)...))
+	add(11, append([]byte{0, 0}, make([]byte, 16)...))
+	add(24, []byte{0, 1})
+	ty := 129
+	for len(body) < target && ty < 250 {
+		room := target - len(body)
+		n := 1020
+		if room < 1020 {
+			n = room
+		}
+		if n < 4 {
+			break
+		}
+		n -= n % 4
+		add(ty, r.Bytes(n-2))
+		ty++
+	}
+	for k := r.Range(1, 4); k > 0 && ty < 255; k-- {
+		add(ty, r.Bytes(4*r.Range(1, 40)-2))
+		ty++
+	}
+	n := 4 + len(body)
+	return append([]byte{byte(r.Range(1, 2)), byte(r.Intn(256)), byte(n >> 8), byte(n)}, body...)
 }
